@@ -23,6 +23,7 @@ EvOK(ev) ==
                     \/ Has(ev, "rule_rec") /\ \E c \in d.bad : SameRule(ev.rule_rec, c)
       [] ev.e = "exit"  -> ~Has(ev, "panic")
       [] ev.e = "adv"   -> TRUE
+      [] ev.e = "sysmem" -> TRUE
       [] OTHER -> FALSE
 
 TraceInit == FlowInit /\ l = 1
